@@ -292,6 +292,21 @@ def numerals(tier):
     return sorted(set(out))
 
 
+def replay(case):
+    if "input" not in case or "reference" not in case:
+        return None
+    ctx = new_ctx(lang_code=case.get("locale", "en"))
+    try:
+        ctx.start_page("Tt")
+        try:
+            got = ctx.expand(case["input"])
+        except Exception as ex:
+            got = "EXC " + type(ex).__name__
+    finally:
+        close_ctx(ctx)
+    return [] if got == case["reference"] else [{"oracle": case.get("oracle", "value"), "observed": got, "expected": case["reference"]}]
+
+
 def work(payload, skip, report):
     acc = Acc(PROP)
     kind = payload[0]
@@ -329,7 +344,8 @@ def work(payload, skip, report):
                     except Exception:
                         close = False
                     if not close:
-                        acc.violation("expr_value:" + kind2, {"input": "{{#expr:" + txt + "}}", "ast": repr(e)}, got, want)
+                        acc.violation("expr_value:" + kind2, {"input": "{{#expr:" + txt + "}}", "ast": repr(e), "reference": want,
+                                                              "oracle": "expr_value:" + kind2}, got, want)
                 acc.distinct("values", want)
             if i % 50021 == 0:
                 acc.sample({"expr": rmin(e), "value": want})
@@ -348,7 +364,7 @@ def work(payload, skip, report):
             acc.distinct("values", [text.split(":")[0], want])
             if got != want:
                 fn = text[2:].split(":")[0].split("|")[0]
-                acc.violation("string_fn:" + fn, {"input": text}, got, want)
+                acc.violation("string_fn:" + fn, {"input": text, "reference": want, "oracle": "string_fn:" + fn}, got, want)
             if i % 30011 == 0:
                 acc.sample({"input": text, "value": want})
         close_ctx(ctx)
